@@ -1052,6 +1052,60 @@ fn vp_native_stalled_body_is_an_error_body() {
     println!("VP-NATIVE stalled_body_is_an_error cases={}", cases);
 }
 
+/// C02: a server that pauses past the read timeout and then carries on: the caller reads again after every timeout, and at every
+/// moment what was handed out is a prefix of the payload; a body that ends without any error having been reported is the whole payload
+#[test]
+fn vp_native_resumed_body_keeps_prefix() { crate::verif_native_watchdog::watched(vp_native_resumed_body_keeps_prefix_body); }
+fn vp_native_resumed_body_keeps_prefix_body() {
+    let payload: Vec<u8> = (0..62u8).map(|i| b'A' + i % 50).collect();
+    let mut cases = 0u64;
+    let handles: Vec<std::thread::JoinHandle<u64>> = ["length", "chunked", "close"].into_iter().flat_map(|shape| [0usize, 20, 61].into_iter().map(move |cut| (shape, cut))).map(|(shape, cut)| {
+        let payload = payload.clone();
+        std::thread::spawn(move || { let mut cases = 0u64;
+        for bsize in [1usize, 16, 42, 62, 4096] { for with_head in [true, false] {
+            let l = TcpListener::bind("127.0.0.1:0").unwrap();
+            let port = l.local_addr().unwrap().port();
+            let p2 = payload.clone();
+            std::thread::spawn(move || {
+                if let Ok((mut s, _)) = l.accept() {
+                    s.set_nodelay(true).ok();
+                    let mut r = BufReader::new(s.try_clone().unwrap());
+                    loop { let mut h = String::new(); if r.read_line(&mut h).unwrap_or(0) == 0 || h == "\r\n" { break; } }
+                    let head = match shape { "length" => format!("HTTP/1.1 200 OK\r\nContent-Length: {}\r\n\r\n", p2.len()), "chunked" => "HTTP/1.1 200 OK\r\nTransfer-Encoding: chunked\r\n\r\n".to_string(), _ => "HTTP/1.1 200 OK\r\n\r\n".to_string() };
+                    let (mut first, mut second) = (Vec::new(), Vec::new());
+                    if shape == "chunked" {
+                        // one chunk holding everything, cut inside its data
+                        first.extend_from_slice(format!("{:x}\r\n", p2.len()).as_bytes()); first.extend_from_slice(&p2[..cut]);
+                        second.extend_from_slice(&p2[cut..]); second.extend_from_slice(b"\r\n0\r\n\r\n");
+                    } else { first.extend_from_slice(&p2[..cut]); second.extend_from_slice(&p2[cut..]); }
+                    if with_head { let mut w = head.into_bytes(); w.extend_from_slice(&first); s.write_all(&w).ok(); }
+                    else { s.write_all(head.as_bytes()).ok(); s.flush().ok(); std::thread::sleep(std::time::Duration::from_millis(60)); s.write_all(&first).ok(); }
+                    s.flush().ok();
+                    std::thread::sleep(std::time::Duration::from_millis(450));   // longer than the client's read timeout
+                    s.write_all(&second).ok(); s.flush().ok();
+                }
+            });
+            let ctx = format!("{}-delimited body of 62 bytes, {} bytes {} then a pause past the read timeout, caller reads of {} bytes and reads again after each error", shape, cut, if with_head { "with the head" } else { "after the head" }, bsize);
+            let mut resp = crate::get(format!("http://127.0.0.1:{}/", port)).proxy_settings(crate::ProxySettings::builder().build()).read_timeout(std::time::Duration::from_millis(120)).send().unwrap_or_else(|e| panic!("the head arrived completely ({}): {}", ctx, e));
+            let mut got = Vec::new(); let mut errors = 0;
+            for _ in 0..400 {
+                let mut b = vec![0u8; bsize];
+                match resp.read(&mut b) {
+                    // after a reported error the reader may refuse to go on (end of data); without one the end must be the real end
+                    Ok(0) => { if errors == 0 { assert_eq!(got, payload, "the body ended cleanly without any error but is not the payload ({})", ctx); } break; }
+                    Ok(n) => got.extend_from_slice(&b[..n]),
+                    Err(_) => { errors += 1; if errors >= 12 { break; } }
+                }
+                assert!(got.len() <= payload.len() && got[..] == payload[..got.len()], "bytes handed out are not a prefix of the payload ({}; {} errors so far): {:?}", ctx, errors, String::from_utf8_lossy(&got));
+            }
+            cases += 1; crate::verif_native_watchdog::progress();
+        } }
+        cases })
+    }).collect();
+    for h in handles { cases += h.join().unwrap_or_else(|p| std::panic::resume_unwind(p)); }
+    println!("VP-NATIVE resumed_body_keeps_prefix cases={}", cases);
+}
+
 /// C19: sending returns once the head has arrived, and every body byte that has arrived can be read without waiting for more:
 /// length- and close-delimited bodies, the server pausing after k body bytes, every caller read size (smaller, equal, larger)
 #[test]
@@ -1122,6 +1176,52 @@ fn vp_native_body_delivered_as_it_arrives_body() {
         assert!(body.is_empty(), "{}", kind);
         cases += 1; crate::verif_native_watchdog::progress();
     }
+    // a redirecting hop: once its head has arrived the next hop is dialled, whatever part of the redirect's own body is still
+    // outstanding.  The first server holds the rest of its body back until the target has seen the follow-up request (a causal
+    // dependency, not a stopwatch): a client that waits for that body first never reaches the target within the grace period.
+    for status in [301u16, 302, 303, 307, 308] { for framing in ["length", "chunked", "close"] { for k in [0usize, 5] {
+        let l1 = TcpListener::bind("127.0.0.1:0").unwrap();
+        let l2 = TcpListener::bind("127.0.0.1:0").unwrap();
+        let (p1, p2) = (l1.local_addr().unwrap().port(), l2.local_addr().unwrap().port());
+        let (tx, rx) = std::sync::mpsc::channel::<()>();
+        let target = std::thread::spawn(move || -> bool {
+            l2.set_nonblocking(true).unwrap();
+            let t0 = std::time::Instant::now();
+            loop {
+                match l2.accept() {
+                    Ok((mut s, _)) => {
+                        s.set_nonblocking(false).ok();
+                        let mut r = BufReader::new(s.try_clone().unwrap());
+                        loop { let mut h = String::new(); if r.read_line(&mut h).unwrap_or(0) == 0 || h == "\r\n" { break; } }
+                        tx.send(()).ok();
+                        s.write_all(b"HTTP/1.1 200 OK\r\nContent-Length: 6\r\nConnection: close\r\n\r\ntarget").ok(); s.flush().ok();
+                        return true;
+                    }
+                    Err(_) if t0.elapsed() < std::time::Duration::from_secs(5) => std::thread::sleep(std::time::Duration::from_millis(5)),
+                    Err(_) => { tx.send(()).ok(); return false; }
+                }
+            }
+        });
+        std::thread::spawn(move || {
+            if let Ok((mut s, _)) = l1.accept() {
+                let mut r = BufReader::new(s.try_clone().unwrap());
+                loop { let mut h = String::new(); if r.read_line(&mut h).unwrap_or(0) == 0 || h == "\r\n" { break; } }
+                let framing_fields = match framing { "length" => "Content-Length: 10\r\n", "chunked" => "Transfer-Encoding: chunked\r\n", _ => "" };
+                s.write_all(format!("HTTP/1.1 {} Moved\r\nLocation: http://127.0.0.1:{}/next\r\n{}\r\n", status, p2, framing_fields).as_bytes()).ok();
+                if k > 0 { if framing == "chunked" { s.write_all(b"5\r\n01234\r\n").ok(); } else { s.write_all(b"01234").ok(); } }
+                s.flush().ok();
+                rx.recv().ok();   // the rest of this body exists only after the target has been asked
+                if framing == "chunked" { s.write_all(b"5\r\n56789\r\n0\r\n\r\n").ok(); } else { s.write_all(b"56789").ok(); }
+            }
+        });
+        let ctx = format!("{} redirect with a {}-delimited body of which {} bytes have arrived", status, framing, k);
+        let resp = crate::get(format!("http://127.0.0.1:{}/", p1)).proxy_settings(crate::ProxySettings::builder().build()).read_timeout(std::time::Duration::from_millis(12000)).send();
+        let asked = target.join().unwrap();
+        assert!(asked, "the next hop was not dialled while the rest of the redirect's body was outstanding ({})", ctx);
+        let resp = resp.unwrap_or_else(|e| panic!("following a redirect whose body is still arriving failed ({}): {}", ctx, e));
+        assert_eq!(resp.bytes().unwrap_or_default(), b"target", "{}", ctx);
+        cases += 1; crate::verif_native_watchdog::progress();
+    } } }
     println!("VP-NATIVE body_delivered_as_it_arrives cases={}", cases);
 }
 
